@@ -46,6 +46,8 @@ pub struct Streams {
     queue: WakeupQueue<InternalConnectionId>,
     handle: WakeupHandle<InternalConnectionId>,
     token: connection::OpenToken,
+    /// further application handles: each has its own open token pair, as `connection::Handle`s do
+    handles: Vec<connection::OpenToken>,
     waker: Waker,
     pub next_packet_number: u64,
 }
@@ -141,6 +143,7 @@ impl Streams {
             queue,
             handle,
             token: connection::OpenToken::new(),
+            handles: (0..4).map(|_| connection::OpenToken::new()).collect(),
             waker: Waker::from(Arc::new(Noop)),
             next_packet_number: 0,
         }
@@ -153,6 +156,21 @@ impl Streams {
         match self
             .manager
             .poll_open_local_stream(stream_type_of(t), &mut self.token, &mut api, &cx)
+        {
+            Poll::Ready(Ok(id)) => Ok(Some(id.as_varint().as_u64())),
+            Poll::Ready(Err(_)) => Err(()),
+            Poll::Pending => Ok(None),
+        }
+    }
+
+    /// as `open`, polled through application handle `h` (0..4) with that handle's own open token
+    pub fn open_with(&mut self, h: usize, t: u64) -> Result<Option<u64>, ()> {
+        let cx = Context::from_waker(&self.waker);
+        let mut api = ConnectionApiCallContext::from_wakeup_handle(&self.handle);
+        let token = &mut self.handles[h % 4];
+        match self
+            .manager
+            .poll_open_local_stream(stream_type_of(t), token, &mut api, &cx)
         {
             Poll::Ready(Ok(id)) => Ok(Some(id.as_varint().as_u64())),
             Poll::Ready(Err(_)) => Err(()),
